@@ -575,6 +575,7 @@ func execC16raw(sc c16Scenario) *vstat.Outcome {
 		}
 	}
 	inPlace, setUnset := false, false
+	trafficReqs := 0
 	removedSlots := map[int]bool{}
 	for i := 1; i < len(sc.Configs); i++ {
 		prev, cur := sc.Configs[i-1], sc.Configs[i]
@@ -603,7 +604,60 @@ func execC16raw(sc c16Scenario) *vstat.Outcome {
 			out.Inconclusive = true
 			return out
 		}
-		if err := live.update(data, 20*time.Second); err != nil {
+		// client traffic on a server whose whole closure (server, its locations, their
+		// upstreams, its cache) is identical before and after this update must never fail
+		stopTraffic := func() (int, string) { return 0, "" }
+		if slot, ok := unchangedServer(prev, cur); ok {
+			addr := fmt.Sprintf("127.0.0.1:%d", livePorts[slot])
+			host, path := "", ""
+			for _, h := range []string{"h1.test", "h2.test", "other.test"} {
+				for _, pth := range []string{"/p1/t", "/p2/t", "/zz"} {
+					if host == "" {
+						if r := pget(cl, addr, h, pth+"?size=30&type=text/plain", nil); r.Err == "" && r.Code == 200 {
+							host, path = h, pth
+						}
+					}
+				}
+			}
+			if host != "" {
+				var wgT sync.WaitGroup
+				quit := make(chan struct{})
+				var nReq int
+				var firstErr string
+				wgT.Add(1)
+				go func() {
+					defer wgT.Done()
+					tcl := newHTTPClient()
+					for {
+						select {
+						case <-quit:
+							return
+						default:
+						}
+						r := pget(tcl, addr, host, path+"?size=30&type=text/plain", nil)
+						nReq++
+						if (r.Err != "" || r.Code != 200) && firstErr == "" {
+							firstErr = fmt.Sprintf("request %d to unchanged server slot %d (%s%s) during update %d: err %q status %d body %q", nReq, slot, host, path, i, r.Err, r.Code, string(r.Raw))
+						}
+						time.Sleep(time.Millisecond)
+					}
+				}()
+				stopTraffic = func() (int, string) {
+					time.Sleep(20 * time.Millisecond)
+					close(quit)
+					wgT.Wait()
+					return nReq, firstErr
+				}
+			}
+		}
+		uerr := live.update(data, 20*time.Second)
+		if n, e := stopTraffic(); n > 0 {
+			trafficReqs += n
+			if e != "" {
+				out.Violate("C16", "unchanged-server-disturbed", "%s", e)
+			}
+		}
+		if err := uerr; err != nil {
 			if !live.alive() {
 				out.Violate("C16", "crash", "the live process exited while configuration %d was applied: %v; last output: %v", i, err, tail(live.errorLines(), 5))
 				return out
@@ -685,6 +739,9 @@ func execC16raw(sc c16Scenario) *vstat.Outcome {
 		out.Violate("C16", "crash", "the live process exited; last output: %v", tail(live.errorLines(), 5))
 	}
 	out.NonTrivial = inPlace && setUnset
+	if trafficReqs > 0 {
+		out.Class("traffic_on_unchanged_server_during_update")
+	}
 	if inPlace {
 		out.Class("server_modified_in_place")
 	}
@@ -693,6 +750,38 @@ func execC16raw(sc c16Scenario) *vstat.Outcome {
 	}
 	out.Evals = len(obsFresh)
 	return out
+}
+
+// unchangedServer finds a server slot whose own settings, locations, the upstreams
+// they use and the cache are identical in both configurations
+func unchangedServer(a, b aConfig) (int, bool) {
+	for _, sa := range a.Servers {
+		for _, sb := range b.Servers {
+			if sa.Slot != sb.Slot || fmt.Sprint(sa) != fmt.Sprint(sb) {
+				continue
+			}
+			same := true
+			// all locations and upstreams (routing consults every listed location)
+			if fmt.Sprint(a.Locations) != fmt.Sprint(b.Locations) || fmt.Sprint(a.Upstreams) != fmt.Sprint(b.Upstreams) {
+				same = false
+			}
+			hasCache := func(c aConfig, n string) bool {
+				for _, x := range c.Caches {
+					if x == n {
+						return true
+					}
+				}
+				return false
+			}
+			if !hasCache(a, sa.Cache) || !hasCache(b, sb.Cache) {
+				same = false
+			}
+			if same {
+				return sa.Slot, true
+			}
+		}
+	}
+	return 0, false
 }
 
 func tail(s []string, n int) []string {
